@@ -25,8 +25,9 @@ impl AbstractFont {
 
 /// Tables in the order head, hhea, maxp, OS/2, hmtx, cmap, loca, glyf, name, post, cvt, ZZZZ.
 /// `style` selects how simple glyphs are written (0 short vectors, 1 words + repeat flags);
-/// `salt` makes the name table differ between fonts that should not share it.
-pub fn build(f: &AbstractFont, loca_long: bool, style: u8, salt: u8) -> SrcFont {
+/// `salt` makes the name table differ between fonts that should not share it; `zlen` is the length
+/// of the arbitrary-tag table ZZZZ (bytes 1, 2, 3, ... so that 13 gives the historical content).
+pub fn build(f: &AbstractFont, loca_long: bool, style: u8, salt: u8, zlen: usize) -> SrcFont {
     let n = f.glyphs.len();
     let recs: Vec<Vec<u8>> = f.glyphs.iter().map(|g| write_glyph(g, style)).collect();
     let (glyf, loca) = fontgen::glyf_loca(&recs, loca_long);
@@ -45,7 +46,7 @@ pub fn build(f: &AbstractFont, loca_long: bool, style: u8, salt: u8) -> SrcFont 
         ("name", fontgen::name(&[(1, fam.as_str()), (2, "Regular"), (4, "Verif Regular"), (6, "Verif-Regular")])),
         ("post", fontgen::post_v3()),
         ("cvt ", vec![0, 10, 0, 20, 255, 246]),
-        ("ZZZZ", vec![1, 2, 3, 4, 5, 6, 7, 8, 9, 10, 11, 12, 13]),
+        ("ZZZZ", (1..=zlen).map(|k| (k % 256) as u8).collect()),
     ];
     SrcFont { flavor: 0x00010000, tables: tables.into_iter().map(|(t, d)| (tag_u32(t), d)).collect() }
 }
